@@ -309,8 +309,8 @@ def BatchResponse.toJson (b : BatchResponse) : Json :=
   | .set e => (⟨none, .unset, .set e⟩ : Response).toJson
   | .unset => .arr (b.responses.map Response.toJson)
 
-/-- v20.py:412-438 `BatchResponse.from_json`.  Note the elements are deserialised with the
-*default* error class (`Response.from_json(item)`), only a batch-level error uses `error_cls`. -/
+/-- v20.py:412-438 `BatchResponse.from_json` (after the repair D25: the elements are deserialised
+with the supplied `error_cls` too). -/
 def BatchResponse.fromJson (reg : ErrRegistry) (errorCls : ErrClass) (j : Json) : Py BatchResponse :=
   match j with
   | .obj kvs =>
@@ -327,7 +327,7 @@ def BatchResponse.fromJson (reg : ErrRegistry) (errorCls : ErrClass) (j : Json) 
         | none => .raised .deserialization            -- a dict is not a list
       else .raised .deserialization
   | .arr xs =>
-    match mapPy (Response.fromJson reg .jsonRpcError) xs with
+    match mapPy (Response.fromJson reg errorCls) xs with
     | .raised e => .raised e
     | .ok rs => BatchResponse.construct rs
   | _ => .raised .deserialization
